@@ -28,7 +28,7 @@ package server
 //@   requires j != nil && 0 <= j.txLen && j.txLen <= len(j.tx) && 0 <= j.pktinfoLen && j.pktinfoLen <= len(j.pktinfo)
 //@   assert at call (*server.udpJob).Write#1: len(arg1) == 12 && arg1[0] == j.rx[0] && arg1[1] == j.rx[1]
 //@   assert at call (*server.udpJob).Write#1: arg1[2] == 128 | (((j.rx[2] >> 3) & 15) << 3) | (j.rx[2] & 1)
-//@   assert at call (*server.udpJob).Write#1: arg1[3] == ite(verdict == acceptNotImplemented, uint8(4), uint8(1))
+//@   assert at call (*server.udpJob).Write#1: arg1[3] == ite(verdict == acceptNotImplemented, uint8(4), ite(verdict == acceptServerFailure, uint8(2), uint8(1)))
 //@   assert at call (*server.udpJob).Write#1: arg1[4] == 0 && arg1[5] == 0 && arg1[6] == 0 && arg1[7] == 0 && arg1[8] == 0 && arg1[9] == 0 && arg1[10] == 0 && arg1[11] == 0
 //@   # C17: the rejection is a reply; it is written only to a source the handler's access list admits (a handler that
 //@   # offers no admission test - a test stub - admits everyone), and the source tested is this job's remote address
@@ -62,8 +62,14 @@ package server
 //@ func (*Server).serveMsgBy
 //@   abstract
 //@   nosafety all pre
-//@   assert at call (middleware.Transport).WriteMsg#1: lastret("(*server.Server).AdmitsSource")
-//@   assert at call (*server.Server).AdmitsSource#1: arg0 == s && arg1 == lastret("(middleware.Transport).RemoteAddr")
+//@   assert at call (middleware.Transport).WriteMsg#2: lastret("(*server.Server).AdmitsSource#2")
+//@   assert at call (*server.Server).AdmitsSource#2: arg0 == s && arg1 == lastret("(middleware.Transport).RemoteAddr")
+//@   # C11 ("expired ... resolution surfaces as SERVFAIL to that client"): a decoded query whose budget ran out before it
+//@   # got here is answered SERVFAIL - when the error is its own deadline (not a cancelled parent: the client is gone) and
+//@   # the source is admitted - and the pipeline is never entered with an expired context
+//@   assert at call (middleware.Transport).WriteMsg#1: lastret("errors.Is") && lastret("(*server.Server).AdmitsSource#1")
+//@   assert at call errors.Is#1: arg0 == lastret("internal/contextutil.EffectiveError") && arg1 == context.DeadlineExceeded
+//@   assert at call (*middleware.Pipeline).NewChain#1: lastret("internal/contextutil.EffectiveError") == nil
 //@
 //@ # ---- C10: on a stream connection every staged reply is whole: a 2-octet length prefix followed by the complete
 //@ # payload, inside the drain buffer; the count of staged octets stays within the buffer
@@ -172,4 +178,37 @@ package server
 //@   abstract
 //@   nosafety all pre
 //@   assert at call (*github.com/miekg/dns.Msg).PackBuffer#1: forall i int :: {arg1[i]} 0 <= i && i < len(arg1) ==> arg1[i] == 0
+
+//@ # C11: the in-place reply to a query whose budget lapsed while it waited in the queue - written only for the query's own
+//@ # deadline, never for a cancelled parent, through the transport's own in-place rejection (which asks the access list)
+//@ func answerExpired
+//@   abstract
+//@   nosafety all pre
+//@   assert at call errors.Is#1: arg0 == err && arg1 == context.DeadlineExceeded
+//@   assert at call (server.expiredRejecter).rejectExpired#1: lastret("errors.Is") && ok
+//@ func (*udpJob).rejectExpired
+//@   abstract
+//@   nosafety all pre
+//@   assert at call (*server.udpJob).rejectInPlace#1: arg0 == j && arg1 == acceptServerFailure
+//@ func (*tcpJob).rejectExpired
+//@   abstract
+//@   nosafety all pre
+//@   assert at call (*server.tcpJob).rejectInPlace#1: arg0 == j && arg1 == acceptServerFailure
+//@
+//@ # C11: the wire-born routes never enter the pipeline with an expired context, and an expired one is answered
+//@ func (*Server).serveWire
+//@   abstract
+//@   nosafety all pre
+//@   assert at call server.answerExpired#1: arg0 == w && arg1 == lastret("internal/contextutil.EffectiveError") && arg1 != nil
+//@   assert at call (*middleware.Pipeline).BindChain#1: lastret("internal/contextutil.EffectiveError") == nil
+//@ func (*Server).ServeRawInline
+//@   abstract
+//@   nosafety all pre
+//@   assert at call server.answerExpired#1: arg0 == w && arg1 == lastret("internal/contextutil.EffectiveError") && arg1 != nil
+//@   assert at call (*middleware.Pipeline).BindChain#1: lastret("internal/contextutil.EffectiveError") == nil
+//@ func (*Server).ServeRawReplay
+//@   abstract
+//@   nosafety all pre
+//@   assert at call server.answerExpired#1: arg0 == w && arg1 == lastret("internal/contextutil.EffectiveError") && arg1 != nil
+//@   assert at call (*middleware.Pipeline).BindChain#1: lastret("internal/contextutil.EffectiveError") == nil
 
